@@ -14,6 +14,12 @@
 //!   w a|n|p <net> <script> <hash> <coin> [<rid>]  withdrawal of <coin> lovelace (0 allowed) from the reward account (network, credential)
 //!   v a|n|p <0|1|2> <script> <hash> [<rid>] vote of a committee / DRep / stake-pool voter
 //!   g a|n|p <kind> <policy|~> <id> [<rid>]  proposal (GovernanceAction variant 0..6, policy hash, deposit = id)
+//!   q <0|1|2|3>                            OBSERVER calls at this point of the history (not a call of the model, no flag): 0 = the query methods of
+//!                                          every sub-builder; 1 = the sub-builders are handed to the TransactionBuilder and min_fee / full_size /
+//!                                          get_plutus_input_scripts / totals / getters are asked; 2 = the same + calc_script_data_hash; 3 = the same +
+//!                                          add_change_if_needed and build_tx on a clone.  They must not change what is built at the end
+//!                                          (calc_script_data_hash stores a hash: q 2 / q 3 get a flag and are the model's OpCalc).
+//! Label `live*`: the inputs are added through the TransactionBuilder's own add_* methods (the builder that answers the queries).
 //! In w and v ops <hash> may be `hex@seed` too (the credential is the hash of the inline script the witness carries).
 //! Case labels select the route: `wrap*` = certificates / withdrawals / native mint through the deprecated TransactionBuilder
 //! wrappers (set_certs, set_withdrawals, add_mint_asset, set_mint_asset); `coinsel*` = no funding input, the builder selects
@@ -55,6 +61,8 @@ enum Op {
     Wd { wk: Wk, net: u8, script: bool, hash: H, coin: u64 },
     Vote { wk: Wk, vk: u8, script: bool, hash: H },
     Prop { wk: Wk, kind: u32, policy: Option<Vec<u8>>, id: u64 },
+    /// an observer call (no effect on the result expected): see `observe`
+    Query(u8),
 }
 
 fn b01(b: bool) -> &'static str { if b { "1" } else { "0" } }
@@ -79,6 +87,7 @@ impl Op {
             Op::Cert { wk, kind, script, id } => { let (k, r) = wk_show(wk); format!("x {} {} {} {}{}", k, kind, b01(*script), id, r) }
             Op::Wd { wk, net, script, hash, coin } => { let (k, r) = wk_show(wk); format!("w {} {} {} {} {}{}", k, net, b01(*script), hash.show(), coin, r) }
             Op::Vote { wk, vk, script, hash } => { let (k, r) = wk_show(wk); format!("v {} {} {} {}{}", k, vk, b01(*script), hash.show(), r) }
+            Op::Query(k) => format!("q {}", k),
             Op::Prop { wk, kind, policy, id } => {
                 let (k, r) = wk_show(wk);
                 format!("g {} {} {} {}{}", k, kind, policy.as_ref().map(|p| hex_or_dash(p)).unwrap_or("~".into()), id, r)
@@ -126,6 +135,7 @@ fn parse(toks: &[String]) -> Vec<Op> {
             "x" => { let k = p.next(); let kind = p.next().parse().unwrap(); let script = p.next() == "1"; let id = p.next().parse().unwrap(); let wk = p.wk(k); Op::Cert { wk, kind, script, id } }
             "w" => { let k = p.next(); let net = p.next().parse().unwrap(); let script = p.next() == "1"; let hash = H::parse(p.next()); let coin = p.next().parse().unwrap(); let wk = p.wk(k); Op::Wd { wk, net, script, hash, coin } }
             "v" => { let k = p.next(); let vk = p.next().parse().unwrap(); let script = p.next() == "1"; let hash = H::parse(p.next()); let wk = p.wk(k); Op::Vote { wk, vk, script, hash } }
+            "q" => Op::Query(p.next().parse().unwrap()),
             "g" => { let k = p.next(); let kind = p.next().parse().unwrap(); let pol = p.next(); let policy = if pol == "~" { None } else { Some(unhex_or_dash(pol)) };
                      let id = p.next().parse().unwrap(); let wk = p.wk(k); Op::Prop { wk, kind, policy, id } }
             _ => panic!("case syntax"),
@@ -327,6 +337,50 @@ fn add_input(b: &mut TxInputsBuilder, kind: &InK, tx: &[u8], ix: u32, pos: usize
     }
 }
 
+/// Observer calls: everything here takes the builders by shared reference or works on the TransactionBuilder's copies; none of it
+/// may influence the transaction built at the end.
+fn observe(k: u8, tb: &mut TransactionBuilder, inputs: &TxInputsBuilder, collateral: &TxInputsBuilder, mint: &MintBuilder,
+           certs: &CertificatesBuilder, wdrl: &WithdrawalsBuilder, votes: &VotingBuilder, props: &VotingProposalBuilder) {
+    if k == 0 {
+        for b in [inputs, collateral] {
+            let _ = b.get_plutus_input_scripts(); let _ = b.get_ref_inputs(); let _ = b.get_native_input_scripts();
+            let _ = b.inputs(); let _ = b.total_value(); let _ = b.len(); let _ = b.inputs_option();
+        }
+        let _ = mint.get_plutus_witnesses(); let _ = mint.get_redeemers(); let _ = mint.get_ref_inputs(); let _ = mint.get_native_scripts();
+        let _ = mint.build(); let _ = mint.has_plutus_scripts(); let _ = mint.has_native_scripts();
+        let _ = certs.get_plutus_witnesses(); let _ = certs.get_ref_inputs(); let _ = certs.get_native_scripts(); let _ = certs.build();
+        let _ = certs.has_plutus_scripts(); let _ = certs.get_certificates_deposit(&BigNum::from(5_000_000u64), &BigNum::from(2_000_000u64));
+        let _ = wdrl.get_plutus_witnesses(); let _ = wdrl.get_ref_inputs(); let _ = wdrl.get_native_scripts(); let _ = wdrl.build();
+        let _ = wdrl.get_total_withdrawals(); let _ = wdrl.has_plutus_scripts();
+        let _ = votes.get_plutus_witnesses(); let _ = votes.get_ref_inputs(); let _ = votes.get_native_scripts(); let _ = votes.build(); let _ = votes.has_plutus_scripts();
+        let _ = props.get_plutus_witnesses(); let _ = props.get_ref_inputs(); let _ = props.build(); let _ = props.has_plutus_scripts();
+        return;
+    }
+    let _ = tb.min_fee(); let _ = tb.full_size(); let _ = tb.get_plutus_input_scripts(); let _ = tb.get_native_input_scripts();
+    let _ = tb.get_reference_inputs(); let _ = tb.get_total_input(); let _ = tb.get_total_output(); let _ = tb.get_deposit();
+    let _ = tb.get_explicit_input(); let _ = tb.get_implicit_input(); let _ = tb.get_mint_builder(); let _ = tb.get_mint_scripts();
+    let _ = tb.output_sizes(); let _ = tb.get_fee_if_set(); let _ = tb.build_tx_unsafe();
+    if k >= 2 { let _ = tb.calc_script_data_hash(&costs()); }
+    if k >= 3 {
+        let mut c = tb.clone();
+        let change = EnterpriseAddress::new(0, &Credential::from_keyhash(&keyhash(0xC4A, 0x22))).to_address();
+        let _ = c.add_change_if_needed(&change); let _ = c.build_tx(); let _ = c.build();
+    }
+}
+/// the inputs through the TransactionBuilder's own (deprecated) add_* methods
+fn add_input_live(tb: &mut TransactionBuilder, kind: &InK, tx: &[u8], ix: u32, pos: usize) {
+    let input = TransactionInput::new(&TransactionHash::from_bytes(tx.to_vec()).expect("32-byte tx hash in case"), ix);
+    let value = Value::new(&BigNum::from(if tx[30] % 5 == 1 { 0 } else { 10_000_000_000u64 }));
+    match kind {
+        InK::Key => match (tx[31] as u64 + ix as u64) % 3 {
+            0 => tb.add_key_input(&keyhash(ix as u64, 0x20), &input, &value),
+            1 => tb.add_regular_input(&EnterpriseAddress::new(0, &Credential::from_keyhash(&keyhash(ix as u64, 0x21))).to_address(), &input, &value).unwrap(),
+            _ => tb.add_bootstrap_input(&ByronAddress::from_base58(BYRON).unwrap(), &input, &value),
+        },
+        InK::Native(h) => { let seed = h.seed.expect("live: inline native script"); tb.add_native_script_input(&inline_native(seed), &input, &value) }
+        InK::Plutus(h, rid) => tb.add_plutus_script_input(&plutus_witness(h, *rid, pos), &input, &value),
+    }
+}
 fn deposit_of(tb: &TransactionBuilder) -> BigNum { tb.get_deposit().unwrap_or(BigNum::zero()) }
 fn builder_has_input(tb: &TransactionBuilder, inp: &TransactionInput) -> bool {
     // the body the builder would emit (fee is irrelevant here)
@@ -340,6 +394,7 @@ fn exec(toks: &[String]) -> String {
     if toks[0] == "ord" || toks[0] == "lock" { return format!("{} {}", toks[0], toks[toks.len() - 1]); }
     let ops = parse(toks);
     let wrap = toks[0].starts_with("wrap");
+    let live = toks[0].starts_with("live");
     let coinsel = toks[0].starts_with("coinsel");
     let mut tb = new_tx_builder();
     let mut w_certs = Certificates::new();
@@ -357,6 +412,19 @@ fn exec(toks: &[String]) -> String {
     let mut prop_names: HashMap<String, String> = HashMap::new();
     for (pos, o) in ops.iter().enumerate() {
         let ok = match o {
+            Op::Query(k) => {
+                if !live { tb.set_inputs(&inputs); }
+                tb.set_collateral(&collateral);
+                if n_mint > 0 { tb.set_mint_builder(&mint); }
+                if n_cert > 0 { tb.set_certs_builder(&certs); }
+                if n_wd > 0 { tb.set_withdrawals_builder(&wdrl); }
+                if n_vote > 0 { tb.set_voting_builder(&votes); }
+                if n_prop > 0 { tb.set_voting_proposal_builder(&props); }
+                observe(*k, &mut tb, &inputs, &collateral, &mint, &certs, &wdrl, &votes, &props);
+                if *k >= 2 { flags.push('1'); }          // calc_script_data_hash is a call of the model too (it stores a hash)
+                continue;
+            }
+            Op::In { col, kind, tx, ix } if live && !*col => { add_input_live(&mut tb, kind, tx, *ix, pos); true }
             Op::In { col, kind, tx, ix } => { add_input(if *col { &mut collateral } else { &mut inputs }, kind, tx, *ix, pos); true }
             Op::Mint { policy, plutus, is_ref, asset, amount, set } => {
                 assert_eq!(policy.seed.is_none(), *is_ref, "ref flag and hash token disagree");
@@ -438,7 +506,7 @@ fn exec(toks: &[String]) -> String {
         };
         flags.push_str(b01(ok));
     }
-    tb.set_inputs(&inputs);
+    if !live { tb.set_inputs(&inputs); }
     tb.set_collateral(&collateral);
     if n_mint > 0 { tb.set_mint_builder(&mint); }
     if n_cert > 0 { tb.set_certs_builder(&certs); }
@@ -660,7 +728,14 @@ fn gen(dir: &str) {
     let thorough = is_thorough();
     let mut r = Rng::new(Rng::new(seed ^ 0xC10).next());
     let mut out = Out::new(dir);
-    let emit = |out: &mut Out, label: &str, ops: &[Op]| {
+    // observer calls are sprinkled into about half of the cases of every stream (a quarter of the permutation cases): the model
+    // ignores them, so a builder whose answer depends on having been asked before disagrees with it
+    let mut orng = Rng::new(Rng::new(seed ^ 0x0B5E).next());
+    let mut emit = |out: &mut Out, label: &str, ops: &[Op]| {
+        let with_obs = if label == "perm" { orng.chance(1, 4) } else { orng.chance(1, 2) };
+        let mut v: Vec<Op> = vec![];
+        for o in ops { v.push(o.clone()); if with_obs && orng.chance(1, 3) { v.push(Op::Query(orng.below(4) as u8)); } }
+        let ops: &[Op] = &v;
         let case = case_line(label, ops);
         let toks: Vec<String> = case.split_whitespace().map(|s| s.to_string()).collect();
         let res = guarded(move || exec(&toks));
@@ -700,6 +775,7 @@ fn gen(dir: &str) {
                         Op::Wd { net, script, hash, .. } => format!("{}.{}.{}", net, script, hex::encode(&hash.bytes)),
                         Op::Vote { vk, script, hash, .. } => format!("{}.{}.{}", vk, script, hex::encode(&hash.bytes)),
                         Op::Prop { kind, policy, id, .. } => format!("{}.{:?}.{}", kind, policy, id),
+                        Op::Query(k) => format!("q{}", k),
                     };
                     if items.iter().all(|x| key(x) != key(&o)) { items.push(o); }
                 }
@@ -929,6 +1005,25 @@ fn gen(dir: &str) {
         if r.chance(1, 2) { ops.push(g.cert(&mut r)); }
         shuffle(&mut r, &mut ops);
         emit(&mut out, "coinsel", &ops);
+    }
+    // 6h. histories with queries between the additions: a Plutus input, a query, then an input that sorts before it (or after it),
+    //     on the sub-builders (`observe`) and on the TransactionBuilder that holds the inputs itself (`live`)
+    for _ in 0..(20 * scale) {
+        let live = r.chance(1, 2);
+        let mut g = Gen::new(&mut r);
+        let mut ops = vec![g.key_collateral()];
+        let n = 2 + r.below(4);
+        for _ in 0..n {
+            let mut o = g.input(&mut r, false, 60);
+            if live { if let Op::In { kind: InK::Native(h), .. } = &mut o { let seed = r.below(1 << 40); *h = H { bytes: inline_native(seed).hash().to_bytes(), seed: Some(seed) }; } }
+            ops.push(o);
+            if r.chance(2, 3) { ops.push(Op::Query(if live { 1 + r.below(3) as u8 } else { r.below(4) as u8 })); }
+            if !live && r.chance(1, 3) { ops.push(match r.below(4) { 0 => g.wd(&mut r), 1 => g.cert(&mut r), 2 => g.vote(&mut r), _ => g.mint(&mut r) }); if r.chance(1, 2) { ops.push(Op::Query(r.below(4) as u8)); } }
+        }
+        // the funding input last or first: it sorts after most inputs, the low one before all of them
+        if r.chance(1, 2) { ops.push(g.funding()); } else { ops.insert(0, g.funding()); }
+        ops.push(Op::In { col: false, kind: InK::Key, tx: vec![0x00; 32], ix: 0 });
+        emit(&mut out, if live { "live" } else { "observe" }, &ops);
     }
     // 7. no collateral although Plutus witnesses are present (build_tx refuses), and nothing Plutus at all
     for _ in 0..(6 * scale) {
